@@ -46,6 +46,24 @@ type c21State struct {
 	// accounts that became SizeSponsor in a group accepted into the block under construction (not yet visible
 	// through the committed-state lookups)
 	pendingSponsor map[basics.Address]bool
+	// model of AppParams.SizeSponsor (basics.AppParams doc + updateApplication comment: the account on the hook for
+	// extra pages + global schema "begins as the creator, but changes whenever there is a sizeChange update"; stored
+	// as zero when it is the creator): last accepted size-updater, zero if that was the creator
+	sponsorModel map[basics.AppIndex]basics.Address
+}
+
+// checkSponsors compares the recorded SizeSponsor of every live known app with the model.
+func (s *c21State) checkSponsors() error {
+	for _, ap := range s.apps {
+		prm, alive := s.acct[ap.creator].AppParams[ap.id]
+		if !alive {
+			continue
+		}
+		if want := s.sponsorModel[ap.id]; prm.SizeSponsor != want {
+			return fmt.Errorf("app %d (creator %s) records SizeSponsor %s, but the last accepted size-changing update makes it %s (zero = creator)", ap.id, ap.creator, prm.SizeSponsor, want)
+		}
+	}
+	return nil
 }
 
 // sponsors: does addr carry the size requirement of a live app it did not create?
@@ -219,6 +237,9 @@ type c21Plan struct {
 	eps     int64
 	descr   string
 	predLow bool // steering predicts final balance < final minimum
+	// size-changing update: which app, by whom
+	sizeApp                  basics.AppIndex
+	sizeUpdater, sizeCreator basics.Address
 }
 
 func c21Eps(rt *rapid.T) int64 {
@@ -330,7 +351,7 @@ func (s *c21State) plan(rt *rapid.T) c21Plan {
 			pl.op, pl.ops = op, []*txntest.Txn{tx}
 		}
 	} else {
-		switch op := rapid.SampledFrom([]string{"app-delete", "size-update", "asset-closeout", "app-closeout", "app-clear", "asset-destroy", "asset-optin",
+		switch op := rapid.SampledFrom([]string{"size-update", "app-delete", "size-update", "asset-closeout", "app-closeout", "app-clear", "asset-destroy", "asset-optin",
 			"app-create", "app-optin", "asset-create", "spend", "close-account", "app-create", "app-optin"}).Draw(rt, "edgeOp"); op {
 		case "asset-optin":
 			var cands []basics.AssetIndex
@@ -447,8 +468,19 @@ func (s *c21State) plan(rt *rapid.T) c21Plan {
 			if len(cands) == 0 {
 				break
 			}
+			// apps that currently have a third-party sponsor first (rapid favours low indices): chains of
+			// size updates of one app by different updaters (third party -> creator -> third party ...)
+			sort.SliceStable(cands, func(i, j int) bool {
+				si := !s.acct[cands[i].creator].AppParams[cands[i].id].SizeSponsor.IsZero()
+				sj := !s.acct[cands[j].creator].AppParams[cands[j].id].SizeSponsor.IsZero()
+				return si && !sj
+			})
 			ap := cands[rapid.IntRange(0, len(cands)-1).Draw(rt, "app")]
 			prm := s.acct[ap.creator].AppParams[ap.id]
+			updater := T
+			if rapid.IntRange(0, 2).Draw(rt, "byCreator") == 0 {
+				updater = ap.creator // the creator takes the size back (SizeSponsor must become zero again)
+			}
 			g := c21Schema(rt, "newG", 4)
 			// keep room for the global state that already exists
 			var usedU, usedB uint64
@@ -469,11 +501,17 @@ func (s *c21State) plan(rt *rapid.T) c21Plan {
 			if epp == 0 && g.NumUint+g.NumByteSlice == 0 {
 				epp = 1
 			}
-			pl.op, pl.delta = op, int64(c21SizeCost(w, g, epp))
+			pl.op, pl.delta = op, 0
+			if updater == T {
+				pl.delta += int64(c21SizeCost(w, g, epp))
+			} else {
+				pl.op = "size-update-by-creator"
+			}
 			if c21SponsorOf(ap.creator, prm) == T {
 				pl.delta -= int64(c21SizeCost(w, prm.GlobalStateSchema, prm.ExtraProgramPages))
 			}
-			pl.ops = []*txntest.Txn{{Type: "appl", Sender: T, ApplicationID: ap.id, OnCompletion: transactions.UpdateApplicationOC,
+			pl.sizeApp, pl.sizeUpdater, pl.sizeCreator = ap.id, updater, ap.creator
+			pl.ops = []*txntest.Txn{{Type: "appl", Sender: updater, ApplicationID: ap.id, OnCompletion: transactions.UpdateApplicationOC,
 				ApprovalProgram: evkSrc(evkAppSource), ClearStateProgram: evkSrc(evkClearSource), GlobalStateSchema: g, ExtraProgramPages: epp}}
 		case "close-account":
 			if s.sponsors(T) {
@@ -550,7 +588,7 @@ func TestVerif_C21_MinBalance(t *testing.T) {
 			rt.Fatalf("world: %v", err)
 		}
 		defer w.close()
-		s := &c21State{w: w, vk: vk, assets: []basics.AssetIndex{w.asset},
+		s := &c21State{w: w, vk: vk, sponsorModel: map[basics.AppIndex]basics.Address{}, assets: []basics.AssetIndex{w.asset},
 			apps: []c21App{{id: w.app1, creator: w.addrs[0], swiss: true}, {id: w.app2, creator: w.addrs[0], swiss: true}}}
 		for i := 0; i < 4; i++ {
 			s.edge = append(s.edge, evkAddr(0xE0, i))
@@ -588,8 +626,13 @@ func TestVerif_C21_MinBalance(t *testing.T) {
 				var mbe *ledgercore.MinBalanceError
 				isMB := errors.As(err, &mbe)
 				plans, accepted = append(plans, pl), append(accepted, err == nil)
-				if err == nil && pl.op == "size-update" {
-					s.pendingSponsor[pl.target] = true
+				if err == nil && pl.sizeApp != 0 {
+					if pl.sizeUpdater == pl.sizeCreator {
+						s.sponsorModel[pl.sizeApp] = basics.Address{}
+					} else {
+						s.sponsorModel[pl.sizeApp] = pl.sizeUpdater
+						s.pendingSponsor[pl.sizeUpdater] = true
+					}
 				}
 				verdict := "accepted"
 				switch {
@@ -633,6 +676,9 @@ func TestVerif_C21_MinBalance(t *testing.T) {
 			}
 			if err := s.checkAll(rendered); err != nil {
 				rt.Fatalf("after step %d: %v", step, err)
+			}
+			if err := s.checkSponsors(); err != nil {
+				rt.Fatalf("after step %d: %v; last steps: %v", step, err, rendered)
 			}
 			for i, pl := range plans {
 				if !accepted[i] {
